@@ -13,7 +13,7 @@ import time
 
 VERIF = os.path.dirname(os.path.dirname(os.path.abspath(__file__)))
 ENV = dict(os.environ, GOFLAGS="-mod=mod", GOPROXY="off", GOSUMDB="off", GOTOOLCHAIN="local")
-PINNED = "go build ./... && go test -vet=off -count=1 ./internal/ledger/ ./internal/model/ ./internal/repo/ ./pkg/order/ ./pkg/order/mempool/ ./pkg/ratelimiter/ ./pkg/vm/wasm/"
+PINNED = "go build -ldflags=-checklinkname=0 ./... && TMPDIR=$(mktemp -d) go test -vet=off -count=1 ./internal/ledger/ ./internal/model/ ./internal/repo/ ./pkg/order/ ./pkg/order/mempool/ ./pkg/ratelimiter/ ./pkg/vm/wasm/"
 
 
 def sh(cmd, cwd=None, timeout=3600, env=ENV):
@@ -44,7 +44,9 @@ def record(sd, key, val):
 
 
 def copy_demo(sd, wt, meta):
-    dst = meta.get("demo_copy_to") or ""
+    dst = (meta.get("demo_copy_to") or "").split()[0].rstrip(",;:") if (meta.get("demo_copy_to") or "").strip() else ""
+    if dst.startswith("/tmp/mut_"):
+        dst = "/".join(dst.split("/")[3:])
     demo = os.path.join(sd, "demo")
     files = sorted(os.listdir(demo)) if os.path.isdir(demo) else []
     if dst:
@@ -66,6 +68,7 @@ def verify(sd):
         copy_demo(sd, wt, meta)
         rc0, o0 = sh(meta["demo_cmd"], cwd=wt)
         res["demo_without_patch_rc"] = rc0
+        sh("git clean -fdq && git checkout -q -- .", cwd=wt)
         rc, o = sh("git apply %s" % os.path.join(sd, "patch.diff"), cwd=wt)
         res["apply_rc"] = rc
         if rc != 0:
@@ -74,6 +77,7 @@ def verify(sd):
         res["pinned_rc"] = rcp
         if rcp != 0:
             res["pinned_out"] = op[-1500:]
+        copy_demo(sd, wt, meta)
         rc1, o1 = sh(meta["demo_cmd"], cwd=wt)
         res["demo_with_patch_rc"] = rc1
         res["demo_with_patch_tail"] = o1[-600:]
@@ -93,7 +97,11 @@ def check(sd, pids):
     try:
         rc, o = sh("git apply %s" % os.path.join(sd, "patch.diff"), cwd=wt)
         if rc != 0:
+            # /repo has moved on (fix commits): retry with fuzz
+            rc, o = sh("patch -p1 --fuzz=3 --no-backup-if-mismatch < %s" % os.path.join(sd, "patch.diff"), cwd=wt)
+        if rc != 0:
             print("patch does not apply:", o)
+            record(sd, "check", {"error": "patch does not apply at " + sh("git -C /repo rev-parse --short HEAD")[1].strip()})
             return 2
         for pid in pids:
             t0 = time.time()
